@@ -11,27 +11,43 @@
 From Coq Require Import List NArith Bool Lia.
 From NB Require Import Base.Json.
 From NB Require Import Base.PyStr.
+From NB Require Import Gen.TsFacts.
 Import ListNotations.
 Local Open Scope N_scope.
 
 Definition is_ls (c : N) : bool := (c =? 8232) || (c =? 8233).
 
-Fixpoint ts_split_lines (s : pystr) : list pystr :=
+Fixpoint ts_split_lines_regex (s : pystr) : list pystr :=
   match s with
   | [] => [[]]
   | c :: rest =>
       if c =? 13 then
         match rest with
-        | c' :: rest' => if c' =? 10 then [13; 10] :: ts_split_lines rest' else [13] :: ts_split_lines rest
+        | c' :: rest' => if c' =? 10 then [13; 10] :: ts_split_lines_regex rest' else [13] :: ts_split_lines_regex rest
         | [] => [[13]; []]
         end
-      else if c =? 10 then [10] :: ts_split_lines rest
-      else if is_ls c then [] :: ts_split_lines rest
-      else match ts_split_lines rest with
+      else if c =? 10 then [10] :: ts_split_lines_regex rest
+      else if is_ls c then [] :: ts_split_lines_regex rest
+      else match ts_split_lines_regex rest with
            | [] => [[c]]
            | l :: ls => (c :: l) :: ls
            end
   end.
+
+(* The repaired form (notes/C15-fix-2.diff): a loop over Python's line boundaries that pushes every terminated line
+   and then the remainder, possibly empty. *)
+Definition ends_with_break (s : pystr) : bool :=
+  match rev s with
+  | [] => true
+  | c :: _ => is_sep c || (c =? 13)
+  end.
+
+Definition ts_split_lines_pysep (s : pystr) : list pystr :=
+  if ends_with_break s then splitlines s ++ [[]] else splitlines s.
+
+(* which of the two the source currently is: Gen/TsFacts.v, regenerated from common/util.ts on every run *)
+Definition ts_split_lines (s : pystr) : list pystr :=
+  if split_lines_is_py then ts_split_lines_pysep s else ts_split_lines_regex s.
 
 (* the separators on which Python and JavaScript disagree *)
 Definition exotic_sep (c : N) : bool :=
